@@ -9,7 +9,7 @@ CHECKS = {
     "C15": dict(
         category="model_checking",
         technique="TLC model checking of BitSet.tla + replay of every TLC-computed vector into the generated set classes + trace validation (BitSetTrace.tla) + vectors as static_asserts",
-        text="BitSet.tla is model-checked (complete machine for 8-bit, and 16-bit in thorough; one step from pattern/random values for 32/64-bit) and "
+        text="BitSet.tla is model-checked (complete machine for 8-bit; one step from pattern / seeded random values for 16-bit - 1024 quick, 8192 thorough - and for 32/64-bit) and "
              "every explored pre-state is replayed with all getters/setters/by-tag/visit/equality against sbeppc-generated set classes of all four widths "
              "under several standards/compilers, at run time and in constant evaluation; random call logs of the real classes are validated against the spec.",
         note="Trusts TLC, the installed compilers, nlohmann::json in the harness; little-endian host; 32/64-bit value space sampled (patterns + seeded random), index space complete.",
